@@ -162,6 +162,9 @@ def scenario(g, i):
         {"p": ".git", "k": "d", "m": 0o755}, {"p": ".git/config", "k": "f", "c": body, "m": 0o644},
         {"p": ".git/" + s + "_ref", "k": "f", "c": body, "m": 0o644},
         {"p": "src/.git", "k": "d", "m": 0o755}, {"p": "src/.git/" + s, "k": "f", "c": body, "m": 0o644},
+        # a .git that is a regular FILE (what git writes into submodule checkouts and linked worktrees) and a .renamify that is one
+        {"p": "Vendor/pkg/.git", "k": "f", "c": b"gitdir: ../../.git/modules/" + s.encode() + b"\n", "m": 0o644},
+        {"p": "third_party/.renamify", "k": "f", "c": body, "m": 0o644},
         {"p": "ln_" + s, "k": "l", "t": "secret.txt"},
         {"p": "lnd_" + s, "k": "l", "t": "vendor"},
     ]
